@@ -75,6 +75,7 @@ type World struct {
 	itxIDs  map[string]*ItxInfo // by itx body hash string
 	refuse  map[string]bool     // itx ids the application refuses
 	tsBase  int64
+	faults  bool // wrap stores in a FaultStore
 	out     *bufio.Writer
 	outF    *os.File
 	traceNo int
